@@ -148,7 +148,9 @@ func hier3Sections(r *vlib.Run) {
 		}
 
 		m := meshOf(input)
+		before := snap3(m)
 		roots := model3d.MeshToHierarchy(m)
+		untouched3(c, "model3d.MeshToHierarchy", m, before)
 		nodes := flattenHier3(roots)
 		c.Count("hier3.decided", 1)
 		c.Count("hier3.components", int64(len(comps)))
